@@ -237,6 +237,10 @@ def render_transition(prog, t, assign=None):
         if t.get(g) and _names(t[g], prog) != "[]":
             kw.append(f"{g}={_names(t[g], prog)}")
     call = f"{src}.to({dst}, {', '.join(kw)})"
+    if assign and t.get("assign_event"):
+        # declared through an explicit Event object: ``ev = Event(a.to(b), name="Label")``
+        label = names.get(assign)
+        return f"    {assign} = Event({call}" + (f", name={label!r}" if label else "") + ")\n"
     if assign:
         return f"    {assign} = {call}\n"
     return f"    {call}\n"
